@@ -767,9 +767,17 @@ class HTTPSConnection(HTTPConnection):
             ssl_context = self.ssl_context
             assert_hostname = self.assert_hostname
             assert_fingerprint = self.assert_fingerprint
+            ca_certs, ca_cert_dir, ca_cert_data = (
+                self.ca_certs,
+                self.ca_cert_dir,
+                self.ca_cert_data,
+            )
             if self.proxy_is_forwarding and self.proxy_config is not None:
                 if self.proxy_config.ssl_context is not None:
+                    # The proxy's own context says which CAs the proxy may
+                    # present; the CA settings for origins are not added to it.
                     ssl_context = self.proxy_config.ssl_context
+                    ca_certs = ca_cert_dir = ca_cert_data = None
                 if self.proxy_config.assert_hostname is not None:
                     assert_hostname = self.proxy_config.assert_hostname
                 if self.proxy_config.assert_fingerprint is not None:
@@ -781,9 +789,9 @@ class HTTPSConnection(HTTPConnection):
                 ssl_version=self.ssl_version,
                 ssl_minimum_version=self.ssl_minimum_version,
                 ssl_maximum_version=self.ssl_maximum_version,
-                ca_certs=self.ca_certs,
-                ca_cert_dir=self.ca_cert_dir,
-                ca_cert_data=self.ca_cert_data,
+                ca_certs=ca_certs,
+                ca_cert_dir=ca_cert_dir,
+                ca_cert_data=ca_cert_data,
                 cert_file=self.cert_file,
                 key_file=self.key_file,
                 key_password=self.key_password,
@@ -847,15 +855,19 @@ class HTTPSConnection(HTTPConnection):
         # `_connect_tls_proxy` is called when self._tunnel_host is truthy.
         proxy_config = typing.cast(ProxyConfig, self.proxy_config)
         ssl_context = proxy_config.ssl_context
+        # Without a context of its own the proxy is verified with the CA
+        # settings of this connection; a context given for the proxy says by
+        # itself which CAs the proxy may present (and stays as the caller made it).
+        own_context = ssl_context is not None
         sock_and_verified = _ssl_wrap_socket_and_match_hostname(
             sock,
             cert_reqs=self.cert_reqs,
             ssl_version=self.ssl_version,
             ssl_minimum_version=self.ssl_minimum_version,
             ssl_maximum_version=self.ssl_maximum_version,
-            ca_certs=self.ca_certs,
-            ca_cert_dir=self.ca_cert_dir,
-            ca_cert_data=self.ca_cert_data,
+            ca_certs=None if own_context else self.ca_certs,
+            ca_cert_dir=None if own_context else self.ca_cert_dir,
+            ca_cert_data=None if own_context else self.ca_cert_data,
             server_hostname=hostname,
             ssl_context=ssl_context,
             assert_hostname=proxy_config.assert_hostname,
